@@ -21,9 +21,10 @@ constant holds nil, Nothing, bool, int64, float64, string and lists of these (wh
 compares); a float constant is carried as its `FormatFloat(f,'g',-1,64)` text and a regex constant
 as a source text that compiles.
 
-The pinned tree violates C14 in thirteen ways; `Dev` names them, `devsExpr`/`devsEqn`/… decide them on
-the object (they are the predicates of the `known` entries `C14-*` in known_findings.json; the
-harness asks the driver for them).
+The pinned tree violated C14 in thirteen ways; eleven are repaired in /repo (e6c1ad4 d27ad83 9a26786
+cd355fe 32b7b46 fe63c88 c107b3b bc70af1 4af356a b3b14ce; known_findings.json `fixed`). Two remain and
+have no repair: `Dev` names them, `devsExpr`/`devsEqn`/… decide them on the object (they are the
+predicates of the `known` entries `C14-no-text-form`, `C14-regex-text`; the harness asks the driver).
 -/
 namespace OjgVerif.JPText
 open OjgVerif
@@ -61,7 +62,7 @@ mutual
     | .nothing => .nothing
     | .bool b => .bool b
     | .int i => .int i
-    | .flt t => .flt t
+    | .flt t => .flt (floatPrint t)     -- `2` (built) and `2.0` (read) are the same float64
     | .str s => .str s
     | .regex s => .regex s
   def Val.normL : List Val → List Val
@@ -152,32 +153,18 @@ def roundTripsEqn (e : Eqn) : Bool :=
     | none => false
     | some e' => eqnString e' == some s && sameTemplate e'.build e.build
 
-/-! ## the deviations of the pinned tree -/
+/-! ## the deviations that remain -/
 
 inductive Dev where
-  | descent        -- a Descent written as `.` before a bracket-form fragment or another Descent, or as `[..]`
   | noTextForm     -- Root/At after the first position, operand path not starting with them, union of < 2 members, NaN/Inf
-  | unionEscape    -- union string member containing `'` or `\` (written raw)
-  | nthMinInt      -- Nth(math.MinInt64)
-  | utf8           -- invalid UTF-8 in a quoted key or string constant (written as �)
-  | equationParens -- Equation.Append: right operand's parentheses decided from the left operand
-  | equalPrec      -- Script.Append: right operand of equal precedence not parenthesised
-  | notScope       -- parser: `!` takes the whole rest of the equation as its operand
-  | funcArg        -- parser: precedentCorrect rotates an operator out of the second argument of match/search
-  | floatText      -- float constant with an integral value is written like an integer
   | regexText      -- regex constant whose source `AppendString(…,'/')` rewrites, or which contains `/`
-  | emptyList      -- `[]` constant: the parser has no empty list
-  | barePath       -- Script of a bare `Get(path)`: re-read as `path exists true`
 deriving DecidableEq, Repr
 
 def Dev.name : Dev → String
-  | .descent => "descent" | .noTextForm => "no-text-form" | .unionEscape => "union-escape"
-  | .nthMinInt => "nth-minint" | .utf8 => "utf8" | .equationParens => "equation-parens"
-  | .equalPrec => "equal-prec" | .notScope => "not-scope" | .funcArg => "func-arg"
-  | .floatText => "float-text" | .regexText => "regex-text" | .emptyList => "empty-list"
-  | .barePath => "bare-path"
+  | .noTextForm => "no-text-form" | .regexText => "regex-text"
 
-/-- no byte sequence of `s` is decoded as RuneError with width 1 (`s` is valid UTF-8) -/
+/-- no byte sequence of `s` is decoded as RuneError with width 1 (`s` is valid UTF-8); no longer a
+hypothesis of anything since c107b3b, kept for the examples -/
 def validUtf8 : Nat → Bytes → Bool
   | 0, _ => true
   | _, [] => true
@@ -187,28 +174,10 @@ def validUtf8 : Nat → Bytes → Bool
 
 def utf8Ok (s : Bytes) : Bool := validUtf8 s.length s
 
-/-- written in bracket form also in dot mode -/
-def Frag.bracketForm : Frag → Bool
-  | .child k => !tokenOk k
-  | .nth _ => true
-  | .union _ => true
-  | .slice _ => true
-  | .filter _ => true
-  | .wild h => h
-  | _ => false
-
 def Frag.isRootAt : Frag → Bool
   | .root => true
   | .at => true
   | _ => false
-
-def devDescentL (br : Bool) : List Frag → Bool
-  | [] => false
-  | .descent :: r =>
-    br || (match r with
-           | [] => false
-           | g :: _ => g.bracketForm || g.isDescent) || devDescentL br r
-  | _ :: r => devDescentL br r
 
 def devRootAtL : List Frag → Bool
   | [] => false
@@ -218,12 +187,7 @@ def startsRootAt : List Frag → Bool
   | [] => false
   | f :: _ => f.isRootAt
 
-def UMem.badKey : UMem → Bool
-  | .key s => s.any fun b => b = 39 || b = 92
-  | .idx _ => false
-
-/-- text of an integral `float64` (`-?digits`), or NaN/±Inf -/
-def floatLooksInt (t : Bytes) : Bool := t.all fun b => isDigit b || b = 45
+/-- NaN/±Inf -/
 def floatNoForm (t : Bytes) : Bool := t.any fun b => b = 78 || b = 73      -- N, I
 
 def regexDev (src : Bytes) : Bool :=
@@ -234,134 +198,41 @@ def regexDev (src : Bytes) : Bool :=
 
 def addIf (c : Bool) (d : Dev) (l : List Dev) : List Dev := if c then d :: l else l
 
-/-- print-stack element of the instrumented `Script.Append`: is it an operator result, its
-precedence, and does its text end inside the scope of an unparenthesised `!` -/
-structure DItem where
-  isOp : Bool
-  prec : Nat
-  openNot : Bool
-deriving Inhabited
-
-def plainOp (o : Op) : Bool :=
-  !(isCode o Gen.JpOps.op_not || isCode o Gen.JpOps.op_group || isCode o Gen.JpOps.op_length ||
-    isCode o Gen.JpOps.op_count || isCode o Gen.JpOps.op_match || isCode o Gen.JpOps.op_search ||
-    o.code = Gen.Jp.userOpCode)
-
-def DItem.opn : Option DItem → Bool
-  | some d => d.isOp
-  | none => false
-
-/-- deviations of one `appendOp(o, left, right)` -/
-def stepDevs (o : Op) (left right : Option DItem) : List Dev :=
-  if plainOp o then
-    addIf (match right with
-           | some r => r.isOp && r.prec == o.prec
-           | none => false) .equalPrec
-      (addIf (match left with
-              | some l => l.isOp && decide (l.prec ≤ o.prec) && l.openNot
-              | none => false) .notScope [])
-  else if isCode o Gen.JpOps.op_match || isCode o Gen.JpOps.op_search then
-    addIf (DItem.opn right) .funcArg []
-  else []
-
-def stepDItem (o : Op) (right : Option DItem) : DItem :=
-  { isOp := true, prec := o.prec,
-    openNot :=
-      if isCode o Gen.JpOps.op_not then true
-      else if plainOp o then
-        (match right with
-         | some r => r.isOp && decide (r.prec ≤ o.prec) && r.openNot
-         | none => false)
-      else false }
-
 mutual
   /-- deviations of a fragment by itself -/
-  def Frag.devs (br : Bool) : Frag → List Dev
-    | .child k => addIf ((br || !tokenOk k) && !utf8Ok k) .utf8 []
-    | .nth i => addIf (i = minInt) .nthMinInt []
-    | .union ms => addIf (ms.length < 2) .noTextForm (addIf (ms.any UMem.badKey) .unionEscape [])
-    | .filter t => (Item.devsL t).1
+  def Frag.devs : Frag → List Dev
+    | .union ms => addIf (ms.length < 2) .noTextForm []
+    | .filter t => Item.devsL t
     | _ => []
-  def Frag.devsL (br : Bool) : List Frag → List Dev
+  def Frag.devsL : List Frag → List Dev
     | [] => []
-    | f :: r => f.devs br ++ Frag.devsL br r
-  /-- instrumented right-to-left scan: deviations and the print stack -/
-  def Item.devsL : List Item → List Dev × List DItem
-    | [] => ([], [])
-    | .val v :: r => (v.devs ++ (Item.devsL r).1, { isOp := false, prec := 0, openNot := false } :: (Item.devsL r).2)
-    | .op o :: r =>
-      (stepDevs o (Item.devsL r).2[0]? (Item.devsL r).2[1]? ++ (Item.devsL r).1,
-       stepDItem o (Item.devsL r).2[1]? :: (Item.devsL r).2.drop o.cnt)
+    | f :: r => f.devs ++ Frag.devsL r
+  def Item.devsL : List Item → List Dev
+    | [] => []
+    | .val v :: r => v.devs ++ Item.devsL r
+    | .op _ :: r => Item.devsL r
   def Val.devs : Val → List Dev
-    | .flt t => addIf (floatNoForm t) .noTextForm (addIf (floatLooksInt t) .floatText [])
-    | .str s => addIf (!utf8Ok s) .utf8 []
+    | .flt t => addIf (floatNoForm t) .noTextForm []
     | .regex s => addIf (regexDev s) .regexText []
-    | .list vs => addIf vs.isEmpty .emptyList (Val.devsL vs)
-    | .expr x =>
-      addIf (devDescentL false x) .descent
-        (addIf (devRootAtL x || !startsRootAt x) .noTextForm (Frag.devsL false x))
+    | .list vs => Val.devsL vs
+    | .expr x => addIf (devRootAtL x || !startsRootAt x) .noTextForm (Frag.devsL x)
     | _ => []
   def Val.devsL : List Val → List Dev
     | [] => []
     | v :: r => v.devs ++ Val.devsL r
 end
 
-/-- the deviations that excuse `x.String()` (`br = false`) or `x.BracketString()` from C14 -/
-def devsExpr (br : Bool) (x : Expr) : List Dev :=
-  addIf (devDescentL br x) .descent (addIf (devRootAtL x) .noTextForm (Frag.devsL br x))
+/-- the deviations that excuse `x.String()` / `x.BracketString()` from C14 (the same for both forms now) -/
+def devsExpr (_br : Bool) (x : Expr) : List Dev := addIf (devRootAtL x) .noTextForm (Frag.devsL x)
 
 /-- … `e.Filter().String()` -/
-def devsFilter (e : Eqn) : List Dev := (Item.devsL e.build).1
-
-def Eqn.isBareGet : Eqn → Bool
-  | .un o (.val (.expr _)) => isCode o Gen.JpOps.op_get
-  | _ => false
+def devsFilter (e : Eqn) : List Dev := Item.devsL e.build
 
 /-- … `e.Script().String()` -/
-def devsScript (e : Eqn) : List Dev := addIf e.isBareGet .barePath (Item.devsL e.script).1
-
-/-- an operator node that `Equation.Append` may have to parenthesise (everything but a constant) -/
-def Eqn.opPrec? : Eqn → Option Nat
-  | .val _ => none
-  | .un o _ => some o.prec
-  | .bin o _ _ => some o.prec
-
-/-- `Equation.Append` deviations on the tree: wrong or unstable parentheses, open `!`, rotated argument -/
-def Eqn.treeDevs : Eqn → List Dev × Bool      -- (deviations, text ends inside an open `!`)
-  | .val _ => ([], false)
-  | .un o l =>
-    if isCode o Gen.JpOps.op_not then
-      (addIf (match l with
-              | .un lo _ => isCode lo Gen.JpOps.op_get
-              | _ => false) .equationParens l.treeDevs.1, true)
-    else (l.treeDevs.1, false)
-  | .bin o l r =>
-    if plainOp o then
-      -- the left operand is parenthesised when its precedence number is not smaller; the right operand
-      -- gets the SAME flag: wrong whenever its own need differs (a constant or path never needs any)
-      (addIf (match r with
-              | .val _ => leftParens o l
-              | .un ro _ => !noParensCode ro && (leftParens o l != decide (ro.prec ≥ o.prec))
-              | .bin ro _ _ => !noParensCode ro && (leftParens o l != decide (ro.prec ≥ o.prec))) .equationParens
-        (addIf (l.treeDevs.2 && !leftParens o l) .notScope (l.treeDevs.1 ++ r.treeDevs.1)),
-       r.treeDevs.2 && (!leftParens o l || (match r.op? with
-                                            | some ro => noParensCode ro
-                                            | none => false)))
-    else if isCode o Gen.JpOps.op_match || isCode o Gen.JpOps.op_search then
-      (addIf (match r with
-              | .val _ => false
-              | .un ro _ => !isCode ro Gen.JpOps.op_get
-              | .bin _ _ _ => true) .funcArg (l.treeDevs.1 ++ r.treeDevs.1), false)
-    else (l.treeDevs.1 ++ r.treeDevs.1, false)
-
-/-- deviations of the constants of an equation (with everything nested in their paths and filters) -/
-def Eqn.valDevs : Eqn → List Dev
-  | .val v => v.devs
-  | .un _ l => l.valDevs
-  | .bin _ l r => l.valDevs ++ r.valDevs
+def devsScript (e : Eqn) : List Dev := Item.devsL e.script
 
 /-- … `e.String()` -/
-def devsEqn (e : Eqn) : List Dev := e.treeDevs.1 ++ e.valDevs
+def devsEqn (e : Eqn) : List Dev := Item.devsL e.build
 
 /-! ## constructible objects -/
 
